@@ -28,7 +28,7 @@ META = {
         'DRAW/PUT (all verbs)/VIEW (fill, border) statement is run alone and the pixel buffers of ALL pages before/after are '
         'compared outside the viewport the harness set up itself; in text modes error 5 and an unchanged screen (pixels and '
         'characters of all pages) are demanded.  Every graphics mode of cga, ega (256k, 64k, mono), vga, hercules, olivetti, '
-        'pcjr, tandy and the text modes (40/80) of those plus mda are covered in both tiers; a seed-independent table of '
+        'pcjr, tandy and the text modes (40/80) of those plus mda are covered in both tiers; MODE changes that carry a non-zero active page (SCREEN m1,,a,v then SCREEN m2,,a,v, pages named in both) precede drawing in a directed probe and in a share of the random episodes; a seed-independent table of '
         'edge/corner/far-out cases runs in every mode.'),
     'level_note': (
         'Trusted: the page-buffer read (validated against Session.get_pixels / VideoBuffer.pixels at mode entry and at checkpoints), '
@@ -44,7 +44,7 @@ META = {
              'behavioural counters record how many changed pixels, were clipped, raised errors'),
     'design_ref': 'DESIGN.md section 4 C30',
     'assumptions': ['page pixel buffers read through VideoBuffer internals are the same data Session.get_pixels exposes (checked at run time)'],
-    'require_counters': {'any': ['stmts_changed_pixels', 'stmts_clipped', 'stmts_clipped_changed', 'stmts_active_ne_visible',
+    'require_counters': {'any': ['mode_switches_nonzero_active_page', 'stmts_changed_pixels', 'stmts_clipped', 'stmts_clipped_changed', 'stmts_active_ne_visible',
                                  'other_pages_compared', 'text_ifc_seen', 'view_set', 'window_set', 'put_drew',
                                  'paint_filled', 'err_5', 'err_6']},
     'timeout': {'quick': 900, 'thorough': 3600},
@@ -444,6 +444,35 @@ class Monitor(object):
             g.enter_mode(ap, vp)
         self.snapshot = None
 
+    def other_screens(self):
+        """SCREEN numbers of the same adapter other than this session's mode (0 = text mode), from the mode table."""
+        prefix = self.g.mode['label'].split(':')[0]
+        nrs = [m['screen'] for m in gfx.GRAPHICS_MODES if m['label'].split(':')[0] == prefix and m['screen'] != self.g.mode['screen']]
+        return nrs + [0]
+
+    def mode_round_trip(self, other, ap, vp):
+        """
+        SCREEN other,,ap,vp (another MODE with the page numbers given) and back with SCREEN m,,ap,vp:
+        both statements name the pages explicitly, so the active page afterwards is ap by the
+        statement's own words. Pages are NOT switched again afterwards. The mode change erases every
+        page; the caller restores the background after its statements.
+        """
+        g, res = self.g, self.res
+        g.direct(b'VIEW:WINDOW')
+        self.st.view = self.st.window = None
+        self.snapshot = None
+        code = g.direct(b'SCREEN %d,,%d,%d' % (other, ap, vp))
+        if code:
+            # the other mode has fewer pages: the message went to the picture, nothing else happened
+            res.count('mode_switch_rejected')
+            g.enter_mode(ap, vp)
+            return False
+        g.enter_mode(ap, vp)
+        res.count('mode_switches')
+        if ap:
+            res.count('mode_switches_nonzero_active_page')
+        return True
+
     def set_window(self, rng, win=None, screen=None):
         g = self.g
         if win is None and rng.random() < 0.15:
@@ -655,7 +684,22 @@ def _after_break(mon, rng):
 def randomised(mon, rng, n):
     g, st = mon.g, mon.st
     while mon.n < n:
-        mon.set_pages(rng, same=rng.random() < 0.3)
+        tripped = False
+        if g.npages > 1 and rng.random() < 0.12:
+            ap = rng.randrange(1, g.npages)
+            vp = ap if rng.random() < 0.5 else rng.randrange(g.npages)
+            tripped = mon.mode_round_trip(rng.choice(mon.other_screens()), ap, vp)
+        else:
+            mon.set_pages(rng, same=rng.random() < 0.3)
+        if tripped:
+            # all pages are blank now: use visible colours, then restore the patchwork
+            for _ in range(rng.randint(8, 16)):
+                kind, stmt, out = gen_statement(rng, st)
+                if len(stmt) <= 240 and mon.check(kind, stmt, out) == 'break':
+                    break
+            mon.background(rng)
+            mon.snapshot = None
+            continue
         if rng.random() < 0.75:
             kind, stmt, out = gen_view(rng, st)
             if mon.check(kind, stmt, out) == 'break':
@@ -824,7 +868,7 @@ def probes(res, label):
       * active page switched by SCREEN while a VIEW is in force, then drawing on the new page
     """
     m = gfx.MODE_BY_LABEL[label]
-    for name in ('draw-colour-300', 'page-switch-under-view', 'circle-pie-radius-1', 'paint-tile-zero-rows'):
+    for name in ('draw-colour-300', 'page-switch-under-view', 'circle-pie-radius-1', 'paint-tile-zero-rows', 'mode-switch-keeps-pages'):
         if name == 'paint-tile-zero-rows' and label not in HANG_PROBE_MODES:
             continue
         try:
@@ -837,6 +881,27 @@ def probes(res, label):
                     # pie-slice line whose end point the arc loop never reaches
                     for s in (b'CIRCLE(60,60),1,%d,-0.6,,1' % c, b'CIRCLE(60,60),1,%d,,-0.6,1' % c, b'CIRCLE(60,60),7,%d,-0.7,-2.4,1' % c):
                         mon.check('CIRCLE', s, False)
+                elif name == 'mode-switch-keeps-pages':
+                    # another MODE entered and left with a non-zero active page named in both SCREEN statements:
+                    # drawing must then go to that page and to no other
+                    if g.npages < 2:
+                        continue
+                    for other in mon.other_screens():
+                        for (ap, vp) in ((1, 1), (1, 0), (g.npages - 1, g.npages - 1)):
+                            if not mon.mode_round_trip(other, ap, vp):
+                                continue
+                            w2, h2 = g.w // 2, g.h // 2
+                            for kind, s in [
+                                ('PSET', b'PSET(%d,%d),%d' % (w2, h2, c)),
+                                ('LINE', b'LINE(3,3)-(%d,%d),%d' % (g.w - 4, g.h - 4, c)),
+                                ('LINE-BF', b'LINE(10,10)-(%d,%d),%d,BF' % (w2, h2, 1 % g.nattr or 1)),
+                                ('CIRCLE', b'CIRCLE(%d,%d),30,%d' % (w2, h2, c)),
+                                ('PAINT', b'PAINT(%d,%d),%d,%d' % (g.w - 6, 6, c, c)),
+                                ('DRAW', b'DRAW "BM%d,%d C%d R40 D20 L40 U20"' % (w2 // 2, h2 // 2, c)),
+                                gen_put(random.Random(7), mon.st, verb=b',PSET', target=(w2 + 5, 5), size=(16, 9))[:2],
+                                ('VIEW', b'VIEW(%d,%d)-(%d,%d),%d,%d' % (w2 + 8, h2 + 8, g.w - 9, g.h - 9, c, c)),
+                            ]:
+                                mon.check(kind, s, False)
                 elif name == 'paint-tile-zero-rows':
                     # tile with three all-zero rows in a box with an obstacle
                     g.direct(b'LINE(50,50)-(70,60),%d,B:PSET(60,54),%d' % (c, c))
